@@ -24,6 +24,7 @@ type Caps struct {
 	KittyKeyboard bool // CSI ? u
 	KittyGraphics bool // APC G query
 	SixelDA1      bool // 4 in DA1
+	DA1Class      int  // first DA1 parameter (service class); 0 = 62
 	SixelXTSM     bool // XTSMGRAPHICS
 	SizeReports   bool // CSI 14 t / CSI 18 t
 	RGB           bool // XTGETTCAP RGB
@@ -216,10 +217,14 @@ func (r *Responder) handle(t lexer.Token) {
 			if c.NoDA1 {
 				return
 			}
+			class := c.DA1Class
+			if class == 0 {
+				class = 62
+			}
 			if c.SixelDA1 {
-				r.send("\x1b[?62;4;22c")
+				r.send(fmt.Sprintf("\x1b[?%d;4;22c", class))
 			} else {
-				r.send("\x1b[?62;22c")
+				r.send(fmt.Sprintf("\x1b[?%d;22c", class))
 			}
 		}
 	case lexer.OSC:
